@@ -663,12 +663,32 @@ def canon(n):
       if (!c) A else B          ->  if (c) B else A            (both branches present; `if constexpr` too)
       x = x op e;               ->  x op= e;                   (x a plain variable; op one of + - * | &)
       x++;  /  for (..; ..; x++)->  ++x                        (the value of the expression is discarded)
-      for (auto it = C.begin(); it != C.end(); ++it) { T x = *it; ... }  with `it` not used again  ->  for (T x : C) { ... }"""
+      for (auto it = C.begin(); it != C.end(); ++it) { T x = *it; ... }  with `it` not used again  ->  for (T x : C) { ... }
+      ( *p).m  ->  p->m;   !(a == b)  ->  a != b;   { { ... } }  ->  { ... }   (also a nested block that declares nothing)
+      a local lambda `[..](params) { return E; }` all of whose uses are calls with plain arguments  ->  E with the arguments
+      a local lambda without return that is only ever called as a statement  ->  its body at every call (inline_void_lambdas)"""
     if isinstance(n, list):
         return [canon(x) for x in n]
     if not isinstance(n, tuple):
         return n
+    if INLINE_LAMBDAS and len(n) == 2 and n[0] == 'block' and isinstance(n[1], list):
+        n = ('block', inline_void_lambdas(n[1]))
     n = tuple(canon(x) for x in n)
+    if len(n) == 2 and n[0] == 'block' and isinstance(n[1], list):
+        # a nested block that declares nothing at its top level is spliced into its parent
+        flat = []
+        for x in n[1]:
+            if isinstance(x, tuple) and len(x) == 2 and x[0] == 'block' and not any(isinstance(y, tuple) and y and y[0] == 'decl' for y in x[1]):
+                flat.extend(x[1])
+            else:
+                flat.append(x)
+        if len(flat) == 1 and isinstance(flat[0], tuple) and len(flat[0]) == 2 and flat[0][0] == 'block':
+            flat = flat[0][1]          # { { ... } }  is  { ... }
+        n = ('block', flat)
+    if len(n) == 3 and n[0] == 'un' and n[1] == '!' and isinstance(n[2], tuple) and len(n[2]) == 4 and n[2][0] == 'bin' and n[2][1] in ('==', '!='):
+        return ('bin', '!=' if n[2][1] == '==' else '==', n[2][2], n[2][3])          # !(a == b)  is  a != b
+    if len(n) == 4 and n[0] == 'member' and n[3] is False and isinstance(n[1], tuple) and n[1][:2] == ('un', '*'):
+        return ('member', n[1][2], n[2], True)          # ( *p).m  is  p->m
     if len(n) == 5 and n[0] == 'if' and n[4] is not None and isinstance(n[2], tuple) and n[2][:2] == ('un', '!'):
         return ('if', n[1], n[2][2], n[4], n[3])
     if len(n) == 2 and n[0] == 'expr' and isinstance(n[1], tuple):
@@ -694,6 +714,189 @@ def canon(n):
     return n
 
 
+def _assigned(n, name):
+    """is the variable `name` the target of an assignment, ++ or -- somewhere in n"""
+    if isinstance(n, list):
+        return any(_assigned(x, name) for x in n)
+    if isinstance(n, tuple):
+        if len(n) == 4 and n[0] == 'assign' and n[2] == ('id', name):
+            return True
+        if len(n) == 3 and n[0] in ('un', 'post') and n[1] in ('++', '--') and n[2] == ('id', name):
+            return True
+        return any(_assigned(x, name) for x in n)
+    return False
+
+
+def _declared(n, acc):
+    if isinstance(n, list):
+        for x in n:
+            _declared(x, acc)
+    elif isinstance(n, tuple):
+        if n and n[0] == 'decl' and len(n) == 3 and isinstance(n[2], list):
+            for d in n[2]:
+                acc.add(d[0])
+        if n and n[0] == 'rangefor':
+            if isinstance(n[1], str):
+                acc.add(n[1])
+            else:
+                acc.update(n[1])
+        for x in n:
+            _declared(x, acc)
+    return acc
+
+
+def _ids(n, acc):
+    if isinstance(n, list):
+        for x in n:
+            _ids(x, acc)
+    elif isinstance(n, tuple):
+        if len(n) == 2 and n[0] == 'id':
+            acc.add(n[1])
+        for x in n:
+            _ids(x, acc)
+    return acc
+
+
+def _has_return(n):
+    if isinstance(n, list):
+        return any(_has_return(x) for x in n)
+    if isinstance(n, tuple):
+        if n and n[0] == 'return':
+            return True
+        if n and n[0] == 'lambda':
+            return False
+        return any(_has_return(x) for x in n)
+    return False
+
+
+def _subst_ids(n, env):
+    if isinstance(n, list):
+        return [_subst_ids(x, env) for x in n]
+    if isinstance(n, tuple):
+        if len(n) == 2 and n[0] == 'id' and n[1] in env:
+            return env[n[1]]
+        return tuple(_subst_ids(x, env) for x in n)
+    return n
+
+
+def _simple(e):
+    """an argument that can be written in place of the parameter: no call, no assignment"""
+    if isinstance(e, tuple):
+        if e and e[0] in ('call', 'assign', 'post', 'lambda', 'cond', 'comma', 'fold', 'construct', 'initlist', 'ctor'):
+            return False
+        if len(e) == 3 and e[0] == 'un' and e[1] in ('++', '--'):
+            return False
+        return all(_simple(x) for x in e)
+    if isinstance(e, list):
+        return all(_simple(x) for x in e)
+    return True
+
+
+def _count_calls(n, name):
+    """(number of statement-level calls  name(args);  in n,  number of mentions of name in n)"""
+    calls = 0
+    if isinstance(n, list):
+        for x in n:
+            calls += _count_calls(x, name)[0]
+    elif isinstance(n, tuple):
+        if len(n) == 2 and n[0] == 'expr' and isinstance(n[1], tuple) and len(n[1]) == 3 and n[1][0] == 'call' and n[1][1] == ('id', name):
+            calls += 1
+            for a in n[1][2]:
+                calls += _count_calls(a, name)[0]
+        else:
+            for x in n:
+                calls += _count_calls(x, name)[0]
+    return calls, sum(1 for _ in _iter_ids(n, name))
+
+
+def _iter_ids(n, name):
+    if isinstance(n, (list, tuple)):
+        if isinstance(n, tuple) and n == ('id', name):
+            yield n
+        else:
+            for x in n:
+                yield from _iter_ids(x, name)
+
+
+def _replace_calls(n, name, make):
+    if isinstance(n, list):
+        return [_replace_calls(x, name, make) for x in n]
+    if isinstance(n, tuple):
+        if len(n) == 2 and n[0] == 'expr' and isinstance(n[1], tuple) and len(n[1]) == 3 and n[1][0] == 'call' and n[1][1] == ('id', name):
+            return make(n[1][2])
+        return tuple(_replace_calls(x, name, make) for x in n)
+    return n
+
+
+def inline_void_lambdas(stmts):
+    """auto f = [..](params) { BODY };  ...  f(args);      ->      ...  { BODY with the parameters bound to args }
+    when every mention of f after its declaration is a call statement, BODY has no return, nothing captured by value is assigned
+    afterwards, and no name declared in BODY occurs in an argument.  A parameter is replaced by its argument when the argument is
+    a plain expression and the parameter is never assigned; otherwise it becomes a local `auto p = arg;` (a lambda argument
+    becomes a local lambda, inlined in turn)."""
+    stmts = list(stmts)
+    i = 0
+    while i < len(stmts):
+        st = stmts[i]
+        if (isinstance(st, tuple) and st and st[0] == 'decl' and st[1] in ('auto', 'const auto') and len(st[2]) == 1
+                and isinstance(st[2][0][1], tuple) and st[2][0][1] and st[2][0][1][0] == 'lambda'):
+            name, lam = st[2][0]
+            caps, params, body = lam[1], lam[2], lam[3]
+            rest = stmts[i + 1:]
+            calls, mentions = _count_calls(rest, name)
+            byval = [c for c in caps if re.fullmatch(r'\w+', c) and c != 'this']
+            ok = (calls > 0 and calls == mentions and body[0] == 'block' and not _has_return(body)
+                  and not any(_assigned(rest, c) for c in byval) and not _mentions(body, name))
+            # auto f = [..](params) { return E; };   every mention of f afterwards being a call with plain arguments:  f(args)  ->  E[params := args]
+            if (not ok and mentions > 0 and body[0] == 'block' and len(body[1]) == 1 and isinstance(body[1][0], tuple) and body[1][0][0] == 'return'
+                    and body[1][0][1] is not None and not any(_assigned(rest, c) for c in byval) and not _mentions(body, name)
+                    and not any(_assigned(body, p_) for p_ in params)):
+                E = body[1][0][1]
+                bad = []
+
+                def sub(n):
+                    if isinstance(n, list):
+                        return [sub(x) for x in n]
+                    if isinstance(n, tuple):
+                        if len(n) == 3 and n[0] == 'call' and n[1] == ('id', name):
+                            args = [sub(a) for a in n[2]]
+                            if len(args) != len(params) or not all(_simple(a) for a in args):
+                                bad.append(1)
+                                return n
+                            return _subst_ids(E, dict(zip(params, args)))
+                        if n == ('id', name):
+                            bad.append(1)
+                        return tuple(sub(x) for x in n)
+                    return n
+                new_rest = sub(rest)
+                if not bad:
+                    stmts = stmts[:i] + new_rest
+                    continue
+            if ok:
+                declared = _declared(body[1], set())
+                failed = []
+
+                def make(args):
+                    if len(args) != len(params) or (_ids(args, set()) & declared):
+                        failed.append(1)
+                        return ('expr', ('call', ('id', name), args))
+                    env, pre = {}, []
+                    for p_, a in zip(params, args):
+                        if isinstance(a, tuple) and a and a[0] == 'lambda':
+                            pre.append(('decl', 'auto', [(p_, a)]))
+                        elif _assigned(body, p_) or not _simple(a) or any(_assigned(body, v) for v in _ids(a, set())):
+                            pre.append(('decl', 'auto', [(p_, a)]))
+                        else:
+                            env[p_] = a
+                    return ('block', inline_void_lambdas(pre + _subst_ids(body[1], env)))
+                new_rest = _replace_calls(rest, name, make)
+                if not failed:
+                    stmts = stmts[:i] + new_rest
+                    continue
+        i += 1
+    return stmts
+
+
 def _mentions(n, name):
     if isinstance(n, (list, tuple)):
         if isinstance(n, tuple) and n == ('id', name):
@@ -703,6 +906,7 @@ def _mentions(n, name):
 
 
 EXPAND_ALIASES = True       # a translator that reads the aliases itself (vptrctor.py) switches this off
+INLINE_LAMBDAS = True       # a translator that gives the local lambdas a meaning of their own (deferred.py) switches this off
 
 
 def expand_local_aliases(text):
